@@ -622,7 +622,14 @@ func (k *x3Kit) step(tw *vTraceWriter, id int, step map[string]interface{}) {
 			k.orphan[f]--
 		} else if k.live[f] {
 			k.live[f] = false
-			k.waitFor("response-"+f, func() bool { return k.g.cnt("follower.response_received", f) > r0 })
+			// the answer arrives - unless the request has timed out meanwhile (slow machine): then the
+			// loop shows up at its idle decision instead, and that timeout is recorded first
+			k.waitFor("response-"+f, func() bool {
+				return k.g.cnt("follower.response_received", f) > r0 || k.curAt("follower.before_wait", f) != nil
+			})
+			if k.g.cnt("follower.response_received", f) == r0 {
+				k.sync(tw, id)
+			}
 		}
 		k.armReplicator(f)
 		k.settleNotifiers()
